@@ -2,28 +2,39 @@
 from __future__ import annotations
 
 import asyncio
+import bisect
 import builtins
 import itertools
 import re
+import struct
+from collections import Counter
+
+from cryptography.hazmat.primitives.ciphers.aead import ChaCha20Poly1305
 
 from harness.common import Ctx, Driver, compare_with_model, hx, load_corpus
 
 import aiohomekit.controller.ip.connection as ipc
 import aiohomekit.http.response as resp
+from aiohomekit.exceptions import HttpErrorResponse
 
 ID = "C07"
 RULE = ("message sequences from a grammar (HTTP/EVENT, status codes, header sets/casings/whitespace, fixed-length bodies 0..600, chunk sequences incl. 1-byte chunks and "
         "upper-case hex sizes, body-less, bodies containing CRLF and '0\\r\\n\\r\\n'); EVERY single and double cut of streams <=~150 bytes, random multi-cut and "
-        "byte-at-a-time on larger ones; separate malformed stream (byte mutations/truncations) for the correspondence only. "
+        "byte-at-a-time on larger ones; separate malformed stream (byte mutations/truncations) for the correspondence only; "
+        "connection-level histories (conn:*): the same grammar and cut patterns fed to the real Insecure/SecureHomeKitProtocol under a real HomeKitConnection (concurrency limit 1/2/64) while the requests are "
+        "issued through protocol.send_bytes / connection.get/put/post/request at every kind of moment (all up front, each just before the read holding the first byte of its response, random earlier read "
+        "boundaries, unanswered extra requests), secure variant with 1..1024-byte blocks: request results and events handed to the connection = the messages sent. "
         "non-trivial = distinct (message-shape tuple, cut-pattern class)")
-TRUSTED = ["CPython bytes/str methods (find, split, strip, title, decode)"]
+TRUSTED = ["CPython bytes/str methods (find, split, strip, title, decode)", "cryptography's ChaCha20Poly1305 as the accessory's sealing in the secure variant of the connection-level histories"]
 ASSUMPTIONS = ["model domain: numeric fields are plain ASCII digit/hex strings and header/status lines are ASCII; cases outside (Python int() tolerance for sign/space/underscore/0x, "
                "Unicode-aware strip/title) are detected by instrumentation and skipped for the correspondence (count in coverage.distribution)",
                "theorem side condition GoodRun: no header block announces both 'Transfer-Encoding: chunked' and a positive Content-Length (RFC 7230 3.3.3); "
                "the implementation is split-dependent on such messages - observed on this run and reported as 'both-framings-split-dependent' (not a violation: outside 'well-formed')",
                "correctness against the writer (C07_written_stream_any_segmentation over Spec/HttpWriter.lean) covers all three framings (Content-Length, chunked, no body), every header - the framing header included - "
                "in any spelling and the framing header at any position (the application sees Title-Cased names and values without surrounding white space); what the writer never produces is outside the theorem: "
-               "two framing headers in one message, a header block that is not ASCII, chunk extensions"]
+               "two framing headers in one message, a header block that is not ASCII, chunk extensions",
+               "connection-level histories: no byte of an HTTP response (secure: of the block that holds its first byte) is delivered before its request reached the transport - the accessory cannot answer earlier; "
+               "the j-th request on the wire owns the j-th HTTP response"]
 EXPLANATION = ("Lean theorems C07_* over the model of HttpResponse.parse + data_received loop: segmentation independence (feed (a++b) = feed a; feed b, lifted to any list of reads, any stream) and "
                "correctness for every segmentation of every stream written by the independent writer of Spec/HttpWriter.lean (the parser returns exactly the messages written and consumes exactly their bytes); "
                "differential tie on data_received")
@@ -223,6 +234,332 @@ def cut(stream, cuts):
     pts = [0] + list(cuts) + [len(stream)]
     return [stream[a:b] for a, b in zip(pts, pts[1:])]
 
+# ------------------------------------------------------------------ connection-level stream
+# The real InsecureHomeKitProtocol / SecureHomeKitProtocol under a real HomeKitConnection, a fake transport as the only
+# stand-in: the requests are ISSUED through the public send path (protocol.send_bytes, connection.get/put/post/request)
+# as tasks on the harness's loop, at varying moments relative to the reads, while the accessory's stream (HTTP responses
+# and unsolicited EVENTs) arrives cut in any way.  Reference = the harness's own bookkeeping: the messages it wrote, and
+# the order in which the requests reached the transport (the j-th request on the wire owns the j-th HTTP response).
+A2C_KEY = bytes(range(1, 33))
+C2A_KEY = bytes(range(65, 97))
+CONN_METHODS = ["get", "put", "post", "request", "request-body"]
+CONN_MODES = ["upfront", "lazy", "early", "mixed"]
+
+
+class _Transport:
+    """stands in for the TCP socket; remembers which task wrote what"""
+
+    def __init__(self):
+        self.writers = []
+        self.closed = False
+
+    def is_closing(self):
+        return self.closed
+
+    def writelines(self, lines):
+        b"".join(lines)
+        self.writers.append(asyncio.current_task())
+
+    def write(self, data):
+        self.writers.append(asyncio.current_task())
+
+    def write_eof(self):
+        pass
+
+    def can_write_eof(self):
+        return True
+
+    def abort(self):
+        self.closed = True
+
+    def close(self):
+        self.closed = True
+
+    def get_extra_info(self, name, default=None):
+        return default
+
+
+class _Owner:
+    """stands in for the pairing that owns the connection"""
+    name = "verif"
+    description = None
+
+    def __init__(self):
+        self.events = []
+
+    def event_received(self, ev):
+        self.events.append(ev)
+
+
+class _RecConn(ipc.HomeKitConnection):
+    """the real connection; event_received additionally records the message it was handed"""
+
+    def event_received(self, event):
+        self.verif_events.append(msg_str(event))
+        return super().event_received(event)
+
+
+def _unhx(s):
+    return b"" if s == "-" else bytes.fromhex(s)
+
+
+def _nonce(c):
+    return struct.pack("<LQ", 0, c)
+
+
+def _issue(conn, proto, layer, k, how):
+    if layer == "protocol":
+        pad = b"x" * (1500 if how == "request-body" else 0)  # > one 1024-byte block on the secure send path
+        return proto.send_bytes(b"GET /r/%d HTTP/1.1\r\nHost: 127.0.0.1\r\n\r\n" % k + pad)
+    if how == "get":
+        return conn.get(f"/r/{k}")
+    if how == "put":
+        return conn.put(f"/r/{k}", b'{"k":%d}' % k)
+    if how == "post":
+        return conn.post(f"/r/{k}", b"\x06\x01\x01")
+    if how == "request-body":
+        return conn.request("PUT", f"/r/{k}", headers=[("Content-Length", 3), ("X-K", str(k))], body=b"abc")
+    return conn.request("GET", f"/r/{k}", headers=[("X-K", str(k))])
+
+
+async def _conn_exec(case):
+    """run one history; returns what the application observed (never raises on library misbehaviour)"""
+    layer, secure, limit = case["layer"], case["secure"], case["limit"]
+    starts = case["starts"]  # wire offset before which the request of the i-th HTTP response must be on the wire
+    methods = case["methods"]
+    conn = _RecConn(_Owner(), ["127.0.0.1"], 51826, limit)
+    conn.verif_events = []
+    proto = ipc.SecureHomeKitProtocol(conn, A2C_KEY, C2A_KEY) if secure else ipc.InsecureHomeKitProtocol(conn)
+    tr = _Transport()
+    proto.connection_made(tr)
+    conn.transport, conn.protocol = tr, proto
+    conn.connected_host, conn.host_header = "127.0.0.1", "Host: 127.0.0.1"
+    tasks = []
+    err = None
+    stalled = False
+    off = 0
+    try:
+        for st in case["steps"]:
+            if st[0] == "issue":
+                k = len(tasks)
+                tasks.append(asyncio.ensure_future(_issue(conn, proto, layer, k, methods[k % len(methods)])))
+                await asyncio.sleep(0)
+                await asyncio.sleep(0)
+            elif st[0] == "spin":
+                for _ in range(st[1]):
+                    await asyncio.sleep(0)
+            else:
+                data = _unhx(st[1])
+                while data:
+                    # a response cannot arrive before its request was sent: the requests of all responses whose first
+                    # byte lies in this read must be on the wire; let the loop run, and if the connection's concurrency
+                    # limit still holds one back, deliver only the bytes in front of that response first
+                    need = bisect.bisect_left(starts, off + len(data))
+                    for _ in range(12):
+                        if len(tr.writers) >= need:
+                            break
+                        await asyncio.sleep(0)
+                    part = data
+                    if len(tr.writers) < need:
+                        part = data[:max(starts[len(tr.writers)] - off, 0)]
+                        if not part:
+                            stalled = True  # every earlier byte was delivered and the next request still is not sent
+                            break
+                    try:
+                        proto.data_received(part)
+                    except Exception as e:  # noqa: BLE001
+                        err = f"{type(e).__name__}: {e}"[:120]
+                        break
+                    off += len(part)
+                    data = data[len(part):]
+                if err or stalled:
+                    break
+        for _ in range(8):
+            await asyncio.sleep(0)
+        results = []
+        for t in tasks:
+            if not t.done():
+                results.append(None)
+            elif t.cancelled():
+                results.append("cancelled")
+            elif t.exception() is not None:
+                ex = t.exception()
+                r = getattr(ex, "response", None)
+                results.append(msg_str(r) if isinstance(ex, HttpErrorResponse) and r is not None else f"raised {type(ex).__name__}: {ex}"[:120])
+            else:
+                results.append(msg_str(t.result()))
+        order = [tasks.index(w) if w in tasks else -1 for w in tr.writers]
+        return {"events": list(conn.verif_events), "results": results, "order": order, "err": err, "stalled": stalled, "fed": off}
+    finally:
+        for t in tasks:
+            if not t.done():
+                t.cancel()
+        if tasks:
+            await asyncio.gather(*tasks, return_exceptions=True)
+
+
+def _conn_judge(case, obs):
+    """(signature, what) of the first disagreement between what was sent and what the application saw, or None"""
+    exp_r, exp_e = case["responses"], case["events"]
+    if obs["err"]:
+        return "conn/raised", f"data_received raised {obs['err']} after {obs['fed']} bytes of a well-formed stream"
+    if obs["events"] != exp_e:
+        i = next((i for i, (a, b) in enumerate(zip(obs["events"], exp_e)) if a != b), min(len(obs["events"]), len(exp_e)))
+        return "conn/events", f"{len(obs['events'])} events handed to the connection, {len(exp_e)} sent; first difference at #{i}: got {obs['events'][i:i + 1]} want {exp_e[i:i + 1]}"
+    order, results = obs["order"], obs["results"]
+    if -1 in order or len(set(order)) != len(order):
+        return "conn/writes", f"requests reached the transport as {order}: not one write per request"
+    for j, want in enumerate(exp_r):
+        if j >= len(order):
+            return "conn/responses", f"response #{j} could not be delivered: its request never reached the wire although every earlier byte was fed (stalled={obs['stalled']})"
+        got = results[order[j]]
+        if got != want:
+            return "conn/responses", f"request #{order[j]} (the {j}-th on the wire) obtained {got if got is not None else 'no reply'}, the {j}-th HTTP response sent was {want}"
+    served = set(order[:len(exp_r)])
+    for k, r in enumerate(results):
+        if k not in served and r is not None:
+            return "conn/spurious", f"request #{k} has no response in the stream and yet finished with {r}"
+    return None
+
+
+def _conn_msgs(rng, pattern, small):
+    out = []
+    for want in pattern:
+        while True:
+            if rng.random() < 0.5:
+                raw, exp, shape = gen_msg(rng, small)
+            else:
+                _, raw, exp, shape = gen_written(rng, small)
+            if exp[0][0] == want:
+                break
+        out.append((raw, exp, shape))
+    return out
+
+
+def _conn_wire(rng, msgs, secure):
+    """the accessory's byte stream on the wire, and per HTTP response the earliest wire byte that depends on its request"""
+    plain = b"".join(m[0] for m in msgs)
+    pstarts, o = [], 0
+    for raw, exp, _ in msgs:
+        if exp[0] == "HTTP":
+            pstarts.append(o)
+        o += len(raw)
+    if not secure:
+        return plain, pstarts
+    # blocks of 1..1024 bytes; a block never holds bytes of a response together with older bytes (it is sealed after the request came in)
+    bounds = set(pstarts) | {rng.randrange(1, len(plain)) for _ in range(rng.choice([0, 0, 1, 2, 5])) if len(plain) > 1}
+    pts = sorted(bounds | {0, len(plain)})
+    blocks = []
+    for a, b in zip(pts, pts[1:]):
+        while b - a > 1024:
+            n = rng.choice([1024, rng.randint(1, 1024)])
+            blocks.append((a, a + n))
+            a += n
+        if b > a:
+            blocks.append((a, b))
+    wire, wstart = b"", {}
+    for ctr, (a, b) in enumerate(blocks):
+        wstart[a] = len(wire)
+        lb = struct.pack("<H", b - a)
+        wire += lb + ChaCha20Poly1305(A2C_KEY).encrypt(_nonce(ctr), plain[a:b], lb)
+    return wire, [wstart[p] for p in pstarts]
+
+
+def _conn_steps(rng, wire, starts, cuts, mode, extra):
+    pts = [0] + list(cuts) + [len(wire)]
+    reads = [wire[a:b] for a, b in zip(pts, pts[1:])]
+    latest = [bisect.bisect_right(pts, s) - 1 for s in starts]  # the read that holds the first byte of the i-th response
+    at, prev = [], 0  # at[i] = the read boundary at which the i-th request is issued: never after `latest`, in order
+    for r in latest:
+        how = mode if mode != "mixed" else rng.choice(["lazy", "early", "with-previous"])
+        if how == "upfront":
+            b = 0
+        elif how == "lazy":
+            b = r
+        elif how == "early":
+            b = rng.randint(prev, r)
+        else:
+            b = prev
+        at.append(b)
+        prev = b
+    for _ in range(extra):  # a request the accessory has not answered (yet)
+        prev = rng.randint(prev, len(reads))
+        at.append(prev)
+    steps = []
+    for r in range(len(reads) + 1):
+        steps += [["issue"]] * at.count(r)
+        if r < len(reads):
+            if len(reads) <= 40 and rng.random() < 0.15:
+                steps.append(["spin", rng.randint(1, 4)])
+            steps.append(["recv", hx(reads[r])])
+    return steps
+
+
+def run_conn(ctx: Ctx, loop):
+    rng = ctx.rng
+    seen = Counter()
+
+    def one(msgs, wire, starts, cuts, layer, secure, limit, mode, extra, cutkind):
+        methods = [rng.choice(CONN_METHODS) for _ in range(3)]
+        case = {"stream": "conn", "layer": layer, "secure": secure, "limit": limit, "mode": mode, "methods": methods, "starts": starts,
+                "steps": _conn_steps(rng, wire, starts, cuts, mode, extra),
+                "responses": [exp_str(m[1]) for m in msgs if m[1][0] == "HTTP"], "events": [exp_str(m[1]) for m in msgs if m[1][0] == "EVENT"]}
+        ctx.evaluations += 1
+        ctx.dist[f"conn:{layer}/{'secure' if secure else 'plain'}/{mode}"] += 1
+        ctx.dist["conn-cuts:" + cutkind] += 1
+        ctx.nontrivial.add(("conn", "".join(m[1][0][0] for m in msgs), layer, secure, min(limit, 2), mode, extra, cutkind, tuple(m[2][0] for m in msgs)))
+        try:
+            bad = _conn_judge(case, loop.run_until_complete(_conn_exec(case)))
+        except Exception as e:  # noqa: BLE001 - the send path / connection itself failed on a valid history
+            bad = ("conn/exception", f"{type(e).__name__}: {e}"[:200])
+        if bad:
+            seen[bad[0]] += 1
+            if seen[bad[0]] <= 8:
+                ctx.violation(bad[0], f"{layer}{' (secure)' if secure else ''}, limit {limit}, requests issued {mode}, {cutkind} {list(cuts)[:6]}, messages {''.join(m[1][0][0] for m in msgs)}: {bad[1]}"[:600], case)
+        return case
+
+    def config():
+        layer = rng.choice(["protocol", "connection", "connection"])
+        limit = 64 if layer == "protocol" else rng.choice([1, 1, 2, 64])
+        return layer, rng.random() < 0.3, limit
+
+    # small streams, every single cut under every issue schedule; the kinds cycle through fixed patterns so that each
+    # neighbourhood (event in front of / between / behind responses, responses only, events only) is there on every run
+    patterns = ["EH", "HEH", "EEH", "HE", "HH", "EHE", "E", "H", "HHEH", "EE"]
+    first = None
+    for i in range(ctx.budget(8, 60)):
+        msgs = _conn_msgs(rng, patterns[i % len(patterns)], small=True)
+        layer, secure, limit = config()
+        if i < 2:
+            secure = False
+        wire, starts = _conn_wire(rng, msgs, secure)
+        L = len(wire)
+        for mode in CONN_MODES:
+            one(msgs, wire, starts, (), layer, secure, limit, mode, 0, "unsplit")
+            for a in range(1, L):
+                c = one(msgs, wire, starts, (a,), layer, secure, limit, mode, rng.choice([0, 0, 1]), "single-cut")
+                first = first or c
+        for _ in range(ctx.budget(40, 400)):
+            a, b = sorted(rng.sample(range(1, L), 2)) if L > 2 else (1, 1)
+            if a != b:
+                one(msgs, wire, starts, (a, b), layer, secure, limit, rng.choice(CONN_MODES), rng.choice([0, 0, 1]), "double-cut")
+    # larger sequences: random multi-cut and byte-at-a-time, random kinds
+    last = None
+    for _ in range(ctx.budget(500, 8000)):
+        pattern = "".join(rng.choice("EH") for _ in range(rng.randint(1, 5)))
+        msgs = _conn_msgs(rng, pattern, small=rng.random() < 0.3)
+        layer, secure, limit = config()
+        wire, starts = _conn_wire(rng, msgs, secure)
+        L = len(wire)
+        if rng.randrange(5) == 0 and L < 400:
+            cuts, ck = tuple(range(1, L)), "byte-at-a-time"
+        else:
+            cuts, ck = tuple(sorted(set(rng.randrange(1, L) for _ in range(rng.choice([1, 2, 3, 8, 30]))))), "multi-cut"
+        last = one(msgs, wire, starts, cuts, layer, secure, limit, rng.choice(CONN_MODES), rng.choice([0, 0, 1]), ck)
+    for c in (first, last):
+        if c:
+            ctx.sample({k: (v if k != "steps" else v[:6]) for k, v in c.items()}, limit=8)
+
 
 def run(ctx: Ctx, driver: Driver):
     rng = ctx.rng
@@ -365,12 +702,19 @@ def run(ctx: Ctx, driver: Driver):
     ctx.sample({k2: v for k2, v in cases[1].items()})
     ctx.sample(cases[-1])
     compare_with_model(ctx, "feed", cases, outs, lines, driver, canon=canon_model)
+    run_conn(ctx, loop)
     loop.close()
 
 
 def replay(ctx, driver, c):
     loop = asyncio.new_event_loop()
     try:
+        if c.get("stream") == "conn":
+            try:
+                bad = _conn_judge(c, loop.run_until_complete(_conn_exec(c)))
+            except Exception as e:  # noqa: BLE001
+                bad = ("conn/exception", f"{type(e).__name__}: {e}"[:200])
+            return f"{bad[0]}: {bad[1]}" if bad else None
         chunks = [bytes.fromhex(x) if x != "-" else b"" for x in c["chunks"]]
         out, msgs, err, outside = impl_feed(loop, chunks)
         whole, msgs2, err2, _ = impl_feed(loop, [b"".join(chunks)])
